@@ -233,7 +233,7 @@ var plainKeys = []string{"name", "levels", "note"}
 var searchKeys = []string{"#amenity", "#building", "#highway"}
 var flagKeys = []string{"@flag"}
 
-var plainValues = []string{"x", "7", "3.5", "51.5, -0.1", "/point/openstreetmap.org/node/1", "", "two words", "a=b", `q"uote`, "yes"}
+var plainValues = []string{"x", "7", "3.5", "51.5, -0.1", "/point/openstreetmap.org/node/1", "", "two words", "a=b", `q"uote`, "yes", "point/openstreetmap.org/node/0123", "1;2", "-0.0"}
 var searchValues = []string{"cafe", "yes", "path", "7", "bus stop"}
 
 func (g *cityGen) tagKey(plainOnly, searchOnly bool) string {
